@@ -15,8 +15,8 @@ import vlib, proj
 from vlib import Verdict, run_tlc, vh, read_ndjson, write_ndjson, sample
 
 LIB = """template A() {\n  signal input in;\n  signal output out;\n  out <== in * in;\n}
-template A2() {\n  signal input x;\n  signal input y;\n  signal output out;\n  out <== x * y;\n}
-template A22() {\n  signal input x;\n  signal input y;\n  signal output o1;\n  signal output o2;\n  o1 <== x * y;\n  o2 <== x + y;\n}
+template A2() {\n  signal input sx;\n  signal input dy;\n  signal output out;\n  out <== sx * dy;\n}
+template A22() {\n  signal input sx;\n  signal input dy;\n  signal output out;\n  signal output aux;\n  out <== sx * dy;\n  aux <== sx + dy;\n}
 template B(k) {\n  signal input in;\n  signal output out;\n  out <== in * k;\n}
 template Z() {\n  signal output out;\n  out <== 3;\n}
 function g(x) {\n  return x + 1;\n}
@@ -28,16 +28,16 @@ def anon_form(form, H, idx=""):
     if form == "anon1":
         return "A()(in)", ["%s = A();" % h, "%s.in <== in;" % h], "%s.out" % h
     if form == "anon2":
-        return "A2()(in, in2)", ["%s = A2();" % h, "%s.x <== in;" % h, "%s.y <== in2;" % h], "%s.out" % h
+        return "A2()(in, in2)", ["%s = A2();" % h, "%s.sx <== in;" % h, "%s.dy <== in2;" % h], "%s.out" % h
     if form == "anon_named":
-        return "A2()(x <== in, y <== in2)", ["%s = A2();" % h, "%s.x <== in;" % h, "%s.y <== in2;" % h], "%s.out" % h
+        return "A2()(sx <== in, dy <== in2)", ["%s = A2();" % h, "%s.sx <== in;" % h, "%s.dy <== in2;" % h], "%s.out" % h
     if form == "anon_named_rev":
-        return "A2()(y <== in2, x <== in)", ["%s = A2();" % h, "%s.y <== in2;" % h, "%s.x <== in;" % h], "%s.out" % h
+        return "A2()(dy <== in2, sx <== in)", ["%s = A2();" % h, "%s.dy <== in2;" % h, "%s.sx <== in;" % h], "%s.out" % h
     if form == "anon_mixed_ops":
-        return "A2()(x <-- in, y <== in2)", ["%s = A2();" % h, "%s.x <-- in;" % h, "%s.y <== in2;" % h], "%s.out" % h
+        return "A2()(sx <-- in, dy <== in2)", ["%s = A2();" % h, "%s.sx <-- in;" % h, "%s.dy <== in2;" % h], "%s.out" % h
     if form == "anon_mixed_ops_rev":
         # named inputs written in the reverse of the declaration order, each with its own operator
-        return "A2()(y <== in2, x <-- in)", ["%s = A2();" % h, "%s.x <-- in;" % h, "%s.y <== in2;" % h], "%s.out" % h
+        return "A2()(dy <== in2, sx <-- in)", ["%s = A2();" % h, "%s.sx <-- in;" % h, "%s.dy <== in2;" % h], "%s.out" % h
     if form == "anon_param":
         return "B(2)(in)", ["%s = B(2);" % h, "%s.in <== in;" % h], "%s.out" % h
     if form == "anon0":
@@ -85,9 +85,9 @@ def tuple_stmt(form):
         "t_skip_first": (["(_, o2) <== (in, in2);", "o <== in;"], ["o2 <== in2;", "o <== in;"]),
         "t_skip_last": (["(o, _) <== (in, in2);", "o2 <== in;"], ["o <== in;", "o2 <== in;"]),
         "t_triple": (["(o, o2, o3) <== (in, in2, in * in2);"], ["o <== in;", "o2 <== in2;", "o3 <== in * in2;"]),
-        "t_anon_outputs": (["(o, o2) <== A22()(in, in2);"], ["component h = A22();", "h.x <== in;", "h.y <== in2;", "o <== h.o1;", "o2 <== h.o2;"]),
+        "t_anon_outputs": (["(o, o2) <== A22()(in, in2);"], ["component h = A22();", "h.sx <== in;", "h.dy <== in2;", "o <== h.out;", "o2 <== h.aux;"]),
         "t_anon_outputs_skip": (["(_, o2) <== A22()(in, in2);", "o <== in;"],
-                                ["component h = A22();", "h.x <== in;", "h.y <== in2;", "o2 <== h.o2;", "o <== in;"]),
+                                ["component h = A22();", "h.sx <== in;", "h.dy <== in2;", "o2 <== h.aux;", "o <== in;"]),
         "t_length_mismatch": (["(o, o2) <== (in, in2, in);"], None),
         "t_nested": (["((o, o2), o3) <== ((in, in2), in);"], ["o <== in;", "o2 <== in2;", "o3 <== in;"]),
         "t_var_decl": (["var (v1, v2) = (1, 2);", "o <== in * v1;", "o2 <== in2 * v2;"], ["var v1 = 1;", "var v2 = 2;", "o <== in * v1;", "o2 <== in2 * v2;"]),
